@@ -22,6 +22,7 @@ SMALL = {
                "if a:\n    b = 1\nelif c:\n    b = 2\nelse:\n    b = 3\n", "for i in l:\n    if i:\n        continue\n    break\nelse:\n    pass\n",
                "while x < 3:\n    x += 1\n", "try:\n    f()\nexcept E as e:\n    g(e)\nfinally:\n    h()\n", "l = [1, (2, 3), {'a': b}]\nm = l[0:2]\n",
                "from m import a as b\nimport x.y\n", "f = lambda q: q + 1\nwith open(p) as fh:\n    d = fh.read()\n", "a, *b = c\nd = e if f else g\n",
+               "while (a if c else b) < n:\n    n -= 1\n", "while (lambda q: q)(x):\n    x = 0\n",
                "@dec\ndef g(*args, **kw):\n    global z\n    z = yield 1\n", "s = f'{a}' + \"q\" 'r'\nt = not a and b or c\n"],
     "javascript": ["var x = 1;\n", "function f(a, b) { return a + b; }\n", "class A extends B { constructor(v) { this.v = v; } m() { return this.v; } }\n",
                    "if (a) { b = 1; } else if (c) { b = 2; } else { b = 3; }\n", "for (let i = 0; i < 3; i++) { if (i) continue; break; }\n",
@@ -53,7 +54,7 @@ SMALL = {
             "<?php\nclass A extends B { public $v; function __construct($v) { $this->v = $v; } function m() { return $this->v; } }\n",
             "<?php\nif ($a) { $b = 1; } elseif ($c) { $b = 2; } else { $b = 3; }\n", "<?php\nfor ($i = 0; $i < 3; $i++) { if ($i) continue; break; }\n",
             "<?php\nwhile ($x < 3) { $x++; }\ndo { $y--; } while ($y);\nforeach ($l as $k => $v) { $t .= $v; }\n",
-            "<?php\ntry { f(); } catch (E $e) { g($e); } finally { h(); }\n", "<?php\nswitch ($x) { case 1: a(); break; default: b(); }\n$r = [1, 'a' => 2];\necho $r[0];\n"],
+            "<?php\nwhile (($c ? $a : $b) < $n) { $n--; }\n", "<?php\ntry { f(); } catch (E $e) { g($e); } finally { h(); }\n", "<?php\nswitch ($x) { case 1: a(); break; default: b(); }\n$r = [1, 'a' => 2];\necho $r[0];\n"],
 }
 
 BODY_COLS = ("body", "then_body", "else_body", "init_body", "condition_prebody", "update_body", "catch_body", "final_body", "parameters",
